@@ -748,6 +748,11 @@ namespace Pistache::Http
 
     std::streamsize ResponseStream::write(const char* data, std::streamsize sz)
     {
+        // a zero-length chunk is the terminator of the whole body (see ends()):
+        // writing no data must not emit one
+        if (sz <= 0)
+            return 0;
+
         std::ostream os(&buf_);
         os << std::hex << sz << crlf;
         os.write(data, sz);
